@@ -186,7 +186,24 @@ def replay_counterexample(prop, h, ovdir, target_dir, tier_cfg, scratch, res):
     base = pcfg.get("override_timeout") or h.timeout or pcfg["harness_timeout"]
     pcfg["override_timeout"] = max(1800, 4 * base)
     pcfg["total"] = max(pcfg.get("total", 0), pcfg["override_timeout"] + 600)
-    rc, wall, cmd = run_kani(ovdir, target_dir, [h], pcfg, None, logfile, playback=True)
+    # Kani's concrete playback asks CBMC for one trace per failed check AND per satisfied cover;
+    # the covers are only vacuity witnesses, so the playback run uses a copy of the overlay with
+    # the `kani::cover!` lines removed (measured: 9 traces of a 140k-step harness did not finish
+    # in 45 min and crashed kani-driver; the failing assertion alone takes minutes)
+    povdir = os.path.join(scratch, "ov-playback")
+    if os.path.exists(povdir):
+        shutil.rmtree(povdir)
+    shutil.copytree(ovdir, povdir)
+    for d, _, fs in os.walk(os.path.join(povdir, "src")):
+        for fn in fs:
+            if fn.endswith(".rs"):
+                fp = os.path.join(d, fn)
+                txt = open(fp).read()
+                new = re.sub(r"^[ \t]*kani::cover!\(.*\);[ \t]*$", "", txt, flags=re.M)
+                if new != txt:
+                    open(fp, "w").write(new)
+    ptarget = ov_mod.seed_kani_target(scratch, "kani-target-playback")
+    rc, wall, cmd = run_kani(povdir, ptarget, [h], pcfg, None, logfile, playback=True)
     text = open(logfile, errors="replace").read()
     tests = [t for t in ov_mod_parse(text) if t[0] != "cover"]
     os.makedirs(os.path.join(VERIF, "replays"), exist_ok=True)
